@@ -100,7 +100,14 @@ macro_rules! four_byte_option_impl {
 
                     let index = legacy::read_four_byte_union_selector(index_bytes)?;
                     if index == 0 {
-                        Ok(None)
+                        if value_bytes.is_empty() {
+                            Ok(None)
+                        } else {
+                            Err(DecodeError::InvalidByteLength {
+                                len: bytes.len(),
+                                expected: BYTES_PER_LENGTH_OFFSET,
+                            })
+                        }
                     } else if index == 1 {
                         Ok(Some(<$type as ssz::Decode>::from_ssz_bytes(value_bytes)?))
                     } else {
